@@ -42,7 +42,7 @@ class Handler(http.server.BaseHTTPRequestHandler):
             self.send_response(206); self.send_header('Content-Type', 'application/octet-stream')
             self.send_header('Content-Range', 'bytes %d-%d/%d' % (a, b, total))
         else:
-            bnd = srv.boundary
+            bnd = srv.boundary + b'%08x' % srv.rnd.getrandbits(32)      # a new boundary for every response, as servers do
             body = b''
             for a, b in ranges:
                 body += b'\r\n--' + bnd + b'\r\nContent-Type: application/octet-stream\r\nContent-Range: bytes %d-%d/%d\r\n\r\n' % (a, b, total) + data[a:b + 1]
